@@ -362,33 +362,55 @@ def val_eq_any(a, b):
 
 def crash_formula(trace, final_name, old_exists, power_loss=True):
     """z3 constraint 'some crash leaves a truncated file under the final name' over crash point k, bytes b of the
-    in-flight write and surviving (durable..written) lengths."""
+    in-flight write and surviving (durable..written) lengths. File objects are buffered in user space: of the n bytes of a write
+    an unknown tail t (0 <= t <= n, a solver variable per write) stays in the process until flush()/close(); os.fsync only makes the
+    bytes the OS already has durable; a crash loses the user-space tail."""
     k = z3.Int("crash_at")
     b = z3.Int("bytes_of_inflight_write")
-    cases = []
+    cases, side = [], []
     for kc in range(len(trace) + 1):
-        # replay kc complete operations concretely
+        # replay kc complete operations
         files = {}
         if old_exists:
-            files[final_name] = dict(total=NBYTES, written=NBYTES, durable=NBYTES, id="old")
+            files[final_name] = dict(total=NBYTES, written=z3.IntVal(NBYTES), durable=z3.IntVal(NBYTES), buffered=z3.IntVal(0), id="old")
         n_obj = 0
-        for op in trace[:kc]:
+        alias = {}
+
+        def res(nm):
+            # an open handle keeps feeding its file after the file was renamed
+            seen_ = set()
+            while nm in alias and nm not in files and nm not in seen_:
+                seen_.add(nm)
+                nm = alias[nm]
+            return nm
+        for i_op, op in enumerate(trace[:kc]):
             if op[0] == "open_w":
                 n_obj += 1
-                files[op[1]] = dict(total=None, written=0, durable=0, id=f"new{n_obj}")
+                alias.pop(op[1], None)
+                files[op[1]] = dict(total=None, written=z3.IntVal(0), durable=z3.IntVal(0), buffered=z3.IntVal(0), id=f"new{n_obj}")
             elif op[0] == "write":
-                files[op[1]]["written"] += op[2]
-                files[op[1]]["total"] = op[2]
+                t = z3.Int(f"unflushed_tail_of_write_{i_op}")
+                side.append(z3.And(t >= 0, t <= op[2]))
+                f_ = files[res(op[1])]
+                f_["written"] = f_["written"] + f_["buffered"] + (op[2] - t)  # earlier tail goes out first
+                f_["buffered"] = t
+                f_["total"] = op[2]
+            elif op[0] in ("flush", "close"):
+                f_ = files.get(res(op[1]))
+                if f_ is not None:
+                    f_["written"] = f_["written"] + f_["buffered"]
+                    f_["buffered"] = z3.IntVal(0)
             elif op[0] == "fsync":
-                files[op[1]]["durable"] = files[op[1]]["written"]
+                files[res(op[1])]["durable"] = files[res(op[1])]["written"]
             elif op[0] == "rename":
                 files[op[2]] = files.pop(op[1])
+                alias[op[1]] = op[2]
+        # a handle opened under the temporary name keeps feeding the same file after a rename: flush/close by old name
         inflight = trace[kc] if kc < len(trace) else None
         f = files.get(final_name)
         if f is None:
             continue  # absent: fine
-        written = z3.IntVal(f["written"])
-        durable = z3.IntVal(f["durable"])
+        written, durable = f["written"], f["durable"]
         total = f["total"]
         extra = []
         if inflight is not None and inflight[0] == "write" and inflight[1] == final_name:
@@ -402,9 +424,9 @@ def crash_formula(trace, final_name, old_exists, power_loss=True):
         L = z3.Int(f"surviving_len_{kc}")
         full = z3.IntVal(total if total is not None else NBYTES)
         # bytes that were fsync'ed survive; the rest may or may not
-        lower = durable if power_loss else written  # a mere process crash loses nothing that was written
+        lower = durable if power_loss else written  # a mere process crash loses nothing the OS already has
         cases.append(z3.And(k == kc, *extra, L >= lower, L <= written, L < full))
-    return z3.Or(*cases) if cases else z3.BoolVal(False), k, b
+    return (z3.And(z3.Or(*cases), *side) if cases else z3.BoolVal(False)), k, b
 
 
 def make_crash(old_exists):
